@@ -268,8 +268,9 @@ pub fn install_observer(root: &str, sink: &Arc<TraceSink>, contents: bool) {
 
 /// Value of a get as a canonical id: >0 value id, 0 not found, -1 error.
 pub fn get_id(db: &DB, u: &Universe, key: i64, snap: Option<&Snapshot>) -> (i64, Option<String>) {
+    // every third key is read without filling the block cache (same result either way)
     let ro = ReadOptions {
-        fill_cache: true,
+        fill_cache: key % 3 != 0,
         snapshot: snap.cloned(),
     };
     match db.get(ro, u.key(key)) {
